@@ -159,7 +159,14 @@ class MessageAny(TlbScheme):
         builder = Builder().store_cell(self.info.serialize())
         if self.init:
             builder.store_bit(1)  # maybe true
-            if len(self.init.serialize().bits) <= (builder.available_bits - 2) and len(self.init.serialize().refs) <= builder.available_refs:
+            init_cell = self.init.serialize()
+            init_inline = len(init_cell.bits) <= (builder.available_bits - 2) and len(init_cell.refs) <= builder.available_refs
+            if init_inline:
+                # the body still has to be placed afterwards: inline, or in a reference of its own
+                bits_left = builder.available_bits - 2 - len(init_cell.bits)
+                refs_left = builder.available_refs - len(init_cell.refs)
+                init_inline = refs_left >= 1 or (len(self.body.bits) <= bits_left and len(self.body.refs) <= refs_left)
+            if init_inline:
                 builder.store_bit(0)  # Either left
                 builder.store_cell(self.init.serialize())
             else:
